@@ -144,9 +144,10 @@ def Server.join (cfg : Cfg) (srv : Server) (c rid ots : Nat) (target : JoinTarge
             :: (if cfg.vikja then [(c, Out.vikjaState s.actions)] else [])
             ++ (if cfg.odal then [(c, Out.odalState s.assets)] else []), .ok)
     else
+      -- a measurement that is still running ends with the session it was started in: its request is answered too
       let (srv', ds) := srv.leave cfg s p
       let (srv'', ds', o) := srv'.joinFresh cfg c rid ots target hint
-      (srv'', ds ++ ds', o)
+      (srv'', s.abandoned p ++ ds ++ ds', o)
   | none => srv.joinFresh cfg c rid ots target hint
 
 /-! ### handling one message (`handler.handleMessage`) -/
